@@ -15,6 +15,7 @@ import (
 	"strconv"
 	"strings"
 	"sync"
+	"sync/atomic"
 	"syscall"
 	"time"
 
@@ -24,6 +25,17 @@ import (
 )
 
 const ceiling = 10 * time.Second // upper bound of every event wait
+
+// degraded is set once a call has run into the ceiling: the run is broken anyway (the miss is reported); later calls get a
+// short ceiling so that a broken tree does not cost minutes.
+var degraded atomic.Bool
+
+func callCeiling() time.Duration {
+	if degraded.Load() {
+		return 500 * time.Millisecond
+	}
+	return ceiling
+}
 
 // wireLog records, per nonce, the raw JSON id of the tools/call request that carried it (seen on the wire).
 type wireLog struct {
@@ -156,9 +168,12 @@ func fire(call caller, nonces [][]string, cancels *sync.Map) []callRes {
 		go func(mine []string) {
 			defer wg.Done()
 			for _, n := range mine {
-				ctx, cancel := context.WithTimeout(context.Background(), ceiling)
+				ctx, cancel := context.WithTimeout(context.Background(), callCeiling())
 				cancels.Store(n, cancel)
 				r, err := call(ctx, n)
+				if ctx.Err() == context.DeadlineExceeded {
+					degraded.Store(true)
+				}
 				cancel()
 				res := callRes{nonce: n, text: textOf(r)}
 				if err != nil {
@@ -359,10 +374,11 @@ func realStreamable(c *hk.Ctx, rc realCase) {
 		return
 	}
 	defer cl.Close()
-	ictx, icancel := context.WithTimeout(context.Background(), ceiling)
+	ictx, icancel := context.WithTimeout(context.Background(), callCeiling())
 	_, err = cl.Initialize(ictx, &mcp.InitializeRequest{})
 	icancel()
 	if err != nil {
+		degraded.Store(true)
 		c.Violate(hk.Violation{Fingerprint: "pending:harness:initialize:" + rc.transport, What: err.Error(), Input: rc.name()})
 		return
 	}
@@ -393,10 +409,11 @@ func realLegacy(c *hk.Ctx, rc realCase) {
 		return
 	}
 	defer cl.Close()
-	ictx, icancel := context.WithTimeout(context.Background(), ceiling)
+	ictx, icancel := context.WithTimeout(context.Background(), callCeiling())
 	_, err = cl.Initialize(ictx, &mcp.InitializeRequest{})
 	icancel()
 	if err != nil {
+		degraded.Store(true)
 		c.Violate(hk.Violation{Fingerprint: "pending:harness:initialize:legacy", What: err.Error(), Input: rc.name()})
 		return
 	}
@@ -448,10 +465,11 @@ func realStdio(c *hk.Ctx, rc realCase) {
 		return
 	}
 	defer endStdioPeer(sc)
-	ictx, icancel := context.WithTimeout(context.Background(), ceiling)
+	ictx, icancel := context.WithTimeout(context.Background(), callCeiling())
 	_, err = sc.Initialize(ictx, &mcp.InitializeRequest{})
 	icancel()
 	if err != nil {
+		degraded.Store(true)
 		c.Violate(hk.Violation{Fingerprint: "pending:harness:initialize:stdio", What: err.Error(), Input: rc.name()})
 		return
 	}
